@@ -699,7 +699,11 @@ impl GenEnv {
                         X::Interp(parts)
                     }
                 }
-                T::List(e) => match r.below(5) {
+                T::List(e) => match r.below(6) {
+                    // tail of any list expression: literals and call results are temporaries that
+                    // own their storage, variables share it (an empty list is an EmptyList error
+                    // in both evaluators)
+                    5 => X::Call("tail".into(), vec![self.genx(ty, locals, r, d)]),
                     0 => X::Call("cons".into(), vec![self.genx(e, locals, r, d), self.genx(ty, locals, r, d)]),
                     1 => X::Call("cons_end".into(), vec![self.genx(e, locals, r, d), self.genx(ty, locals, r, d)]),
                     2 => X::Call("reverse".into(), vec![self.genx(ty, locals, r, d)]),
@@ -744,7 +748,22 @@ impl GenEnv {
             }
             7 => match ty {
                 // field access / list observers
-                T::Num => match r.below(4) {
+                T::Num => match r.below(6) {
+                    // head of a tail of a list that is long enough, and head of any list expression
+                    4 => X::Call(
+                        "head".into(),
+                        vec![X::Call(
+                            "tail".into(),
+                            vec![X::Call(
+                                "cons".into(),
+                                vec![
+                                    self.genx(&T::Num, locals, r, d),
+                                    X::Call("cons".into(), vec![self.genx(&T::Num, locals, r, d), self.genx(&T::List(Box::new(T::Num)), locals, r, d)]),
+                                ],
+                            )],
+                        )],
+                    ),
+                    5 => X::Call("head".into(), vec![self.genx(&T::List(Box::new(T::Num)), locals, r, d)]),
                     0 => {
                         self.ensure_struct(0);
                         X::Field(Box::new(self.genx(&T::Struct(0), locals, r, d)), ["px", "py", "pz"][r.below(3)].to_string())
